@@ -94,13 +94,15 @@ def arrangements(draw):
     a, b = arrange(ops), arrange(ops)
     # the same two arrangements below another node: the order must not depend on where the operator sits (an address under a
     # slice of a memory read, a branch of a conditional, a part of a concatenation)
-    ctx = draw(st.sampled_from(["top", "top", "top", "address-under-slice", "address", "cond-branch", "compose-part", "slice"])) if w == 32 else "top"
+    ctx = draw(st.sampled_from(["top", "top", "top", "address-under-slice", "address", "cond-branch", "compose-part", "slice", "assignment-destination-address", "assignment-source"])) if w == 32 else "top"
     wrap = {"top": lambda x: x,
             "address-under-slice": lambda x: ["slice", ["mem", x, 32, None], 8, 16],
             "address": lambda x: ["op", "+", [["mem", x, 32, None], ["int", 32, 1]]],
             "cond-branch": lambda x: ["cond", ["id", "p1", 1], x, ["id", "q32", 32]],
             "compose-part": lambda x: ["compose", [[["slice", x, 0, 16], 0, 16], [["id", "h16", 16], 16, 32]]],
-            "slice": lambda x: ["slice", x, 8, 24]}[ctx]
+            "slice": lambda x: ["slice", x, 8, 24],
+            "assignment-destination-address": lambda x: ["aff", ["mem", x, 32, None], ["id", "q32", 32]],
+            "assignment-source": lambda x: ["aff", ["id", "q32", 32], x]}[ctx]
     return {"op": op, "a": wrap(a), "b": wrap(b), "operands": ops, "ctx": ctx}
 
 
